@@ -27,7 +27,16 @@ class BucketSamplerH(Harness):
         c = self.cfg
         n = c["n"]
         with patched(D, torch=Shim(torch, distributed=DistStub(0, 1))):
-            base = D.EpochSequentialSampler(SizedStub(n), 0, "ignore")
+            if c.get("rot"):
+                class RotSampler(D.AbstractEpochSampler):
+                    """a user-defined epoch sampler whose order depends on the epoch: epoch e yields e, e+1, ..., n-1, 0, ..., e-1"""
+
+                    def get_samples_for_epoch_ignoring_distributed(self, epoch):
+                        return [(epoch + i) % n for i in range(n)]
+
+                base = RotSampler(SizedStub(n), 0, "ignore")
+            else:
+                base = D.EpochSequentialSampler(SizedStub(n), 0, "ignore")
             idx2bucket = dict((i, buckets[i]) for i in range(n))
             bucket2size = dict((b, sizes[b]) for b in range(c["B"]))
             bs = D.BucketBatchSampler(base, idx2bucket, bucket2size, c["drop"])
@@ -40,13 +49,15 @@ class BucketSamplerH(Harness):
     def _judge(self, buckets, sizes, passes):
         viol = []
         for pi, (predicted, batches) in enumerate(passes):
-            viol.extend((f"pass {pi}: {l}", cnd) for l, cnd in self._judge_pass(buckets, sizes, predicted, batches))
+            viol.extend((f"pass {pi}: {l}", cnd) for l, cnd in self._judge_pass(buckets, sizes, predicted, batches, pi))
         return viol
 
-    def _judge_pass(self, buckets, sizes, predicted, batches):
+    def _judge_pass(self, buckets, sizes, predicted, batches, epoch=0):
         c = self.cfg
         n = c["n"]
         viol = []
+        # position of an index in the order the underlying sampler yields for this pass's epoch (asking for the length must not consume an epoch)
+        pos = (lambda i: (i - epoch) % n) if c.get("rot") else (lambda i: i)
         viol.append(("predicted number of batches != batches yielded", s_cmp("ne", cell(predicted), len(batches))))
         seen = [x for b in batches for x in b]
         viol.append(("an index is yielded more than once", len(set(seen)) != len(seen)))
@@ -55,7 +66,7 @@ class BucketSamplerH(Harness):
             viol.append((f"batch {bi} is empty", len(b) == 0))
             if not b:
                 continue
-            viol.append((f"batch {bi} not in sampler order", b != sorted(b)))
+            viol.append((f"batch {bi} not in the order the sampler yields for epoch {epoch}", b != sorted(b, key=pos)))
             bk = buckets[b[0]]
             viol.append((f"batch {bi} mixes buckets", s_any(s_cmp("ne", cell(buckets[i]), cell(bk)) for i in b[1:])))
             size = 0
@@ -81,7 +92,7 @@ class BucketSamplerH(Harness):
             for k in range(c["B"]):
                 size = s_ite(s_cmp("eq", cell(buckets[i]), k), cell(sizes[k]), size)
             viol.append((f"index {i} dropped although its batch was complete", s_cmp("ge", same_missing, size)))
-            later_seen = s_any(s_cmp("eq", cell(buckets[j]), cell(buckets[i])) for j in seen if j > i)
+            later_seen = s_any(s_cmp("eq", cell(buckets[j]), cell(buckets[i])) for j in seen if pos(j) > pos(i))
             viol.append((f"index {i} dropped but a later index of its bucket was batched", later_seen))
         return viol
 
@@ -299,7 +310,8 @@ META = dict(
     functions=sorted(set(BucketSamplerH.functions + BucketParamsH.functions + CollateH.functions)),
     files=["src/pydrobert/torch/_dataloaders.py", "src/pydrobert/torch/_datasets.py"],
     explanation=(
-        "BucketBatchSampler.__iter__ (two consecutive passes over the same sampler object) and _get_batch_sampler_len run with symbolic bucket assignments and bucket sizes (SymInt; dict lookups and size tests "
+        "BucketBatchSampler.__iter__ (two consecutive passes over the same sampler object, over the sequential sampler and over a user-defined sampler whose order "
+        "depends on the epoch, so that a length query which consumes an epoch is visible) and _get_batch_sampler_len run with symbolic bucket assignments and bucket sizes (SymInt; dict lookups and size tests "
         "fork through the solver); asserted: single-bucket batches in sampler order, never larger than the bucket size, short only as the trailing batch of a "
         "bucket and only when incomplete batches are kept, every index in exactly one batch or dropped only from an incomplete trailing batch, predicted "
         "length == number yielded.  _get_bucket_batch_sampler_params runs with symbolic utterance lengths (sorting forks on comparisons): buckets monotone "
@@ -321,6 +333,7 @@ def tasks(tier):
     q = tier == "quick"
     for drop in (False, True):
         ts.append(task(PROP, M_, "BucketSamplerH", n=5 if q else 6, B=2 if q else 3, smax=3, drop=drop, nvalidate=1))
+        ts.append(task(PROP, M_, "BucketSamplerH", n=4 if q else 5, B=2, smax=2 if q else 3, drop=drop, rot=True, passes=2 if q else 3, nvalidate=1))
     for dyn in (False, True):
         for nbk, bsz in ((2, 1), (2, 2)) if q else ((2, 1), (2, 2), (3, 1), (3, 2)):
             ts.append(task(PROP, M_, "BucketParamsH", n=4 if q else 5, lmax=3 if q else 4, num_buckets=nbk, batch_size=bsz, dynamic=dyn, nvalidate=1))
